@@ -17,21 +17,21 @@ import (
 
 // WorkerOut is what one worker process reports to the driver.
 type WorkerOut struct {
-	Property   string       `json:"property"`
-	Seed       uint64       `json:"seed"`
-	Worker     int          `json:"worker"`
-	Workers    int          `json:"workers"`
-	Stats      Stats        `json:"stats"`
-	Violations []FoundViol  `json:"violations"`
-	Samples    []SampleRun  `json:"samples"`
-	Hashes     []string     `json:"hashes,omitempty"`
-	Distinct   int          `json:"distinct_nontrivial_local"`
-	HashFile   string       `json:"hash_file"`
-	WallS      float64      `json:"wall_s"`
-	Leaked     int          `json:"leaked_bubbles"`
-	Error      string       `json:"error,omitempty"`
-	RaceBuild  bool         `json:"race_build"`
-	Meta       *Prop        `json:"meta"`
+	Property   string      `json:"property"`
+	Seed       uint64      `json:"seed"`
+	Worker     int         `json:"worker"`
+	Workers    int         `json:"workers"`
+	Stats      Stats       `json:"stats"`
+	Violations []FoundViol `json:"violations"`
+	Samples    []SampleRun `json:"samples"`
+	Hashes     []string    `json:"hashes,omitempty"`
+	Distinct   int         `json:"distinct_nontrivial_local"`
+	HashFile   string      `json:"hash_file"`
+	WallS      float64     `json:"wall_s"`
+	Leaked     int         `json:"leaked_bubbles"`
+	Error      string      `json:"error,omitempty"`
+	RaceBuild  bool        `json:"race_build"`
+	Meta       *Prop       `json:"meta"`
 }
 
 type FoundViol struct {
@@ -235,6 +235,10 @@ func TestWorker(t *testing.T) {
 		fmt.Println(string(b))
 	}
 	_ = runtime.NumGoroutine
+	if RaceBuild {
+		// the testing package fails the test when the detector reported anything; reports are this check's data
+		os.Exit(0)
+	}
 }
 
 // replayMain re-executes a replay file in this (fresh) process. Exit code 1 +
